@@ -73,7 +73,7 @@ def record_traces(binary, outdir, tier, seed):
     return files, stats
 
 
-GEN_CFG = {"accounts": 8, "dids": 2, "validators": 1, "balance": 100000}
+GEN_CFG = {"accounts": 8, "dids": 2, "validators": 1, "balance": 10000000, "fishmen": ["a03"]}
 GEN_PLAN = {"quick": (8, 3, 40), "thorough": (12, 10, 50)}   # (TLC simulate processes, behaviours each, events per behaviour)
 
 
